@@ -46,13 +46,16 @@ def plan(tier, seed):
 
 def rand_trs(rng):
     wild = rng.random() < 0.35
-    twp = rng.choice([f"{rng.randint(0, 12)}{rng.choice('ns')}", 'XXXz',
+    twp = rng.choice([f"{rng.randint(0, 12)}{rng.choice('ns')}",
+                      f"{rng.randint(100, 999)}{rng.choice('ns')}", 'XXXz',
                       '___z']) if wild else \
         f"{rng.randint(1, 4)}{rng.choice('ns')}"
-    rge = rng.choice([f"{rng.randint(0, 12)}{rng.choice('ew')}", 'XXXz',
+    rge = rng.choice([f"{rng.randint(0, 12)}{rng.choice('ew')}",
+                      f"{rng.randint(100, 999)}{rng.choice('ew')}", 'XXXz',
                       '___z']) if wild else \
         f"{rng.randint(1, 4)}{rng.choice('ew')}"
-    sec = rng.choice([f"{rng.randint(0, 36):02d}", 'XX', '__']) if wild \
+    sec = rng.choice([f"{rng.randint(0, 36):02d}", f"{rng.randint(37, 99):02d}",
+                      'XX', '__']) if wild \
         else f"{rng.randint(1, 6):02d}"
     return twp + rge + sec
 
